@@ -452,6 +452,11 @@ def run_daemon(impl, scn, marker=True, chunking=None, logs=None, extra_env=None,
         if marker:
             steps, tail = split_steps(text)
             res.banner = steps[0][0] if steps else []
+            # what the daemon prints BEFORE its version banner (start-up diagnostics, written while the log verbosity is still
+            # the start-up default) is outside the channel contract, which begins with the V line
+            vpos = next((i_ for i_, l_ in enumerate(res.banner) if l_.startswith("V ")), None)
+            res.prebanner = res.banner[:vpos] if vpos is not None else []
+            if vpos is not None: res.banner = res.banner[vpos:]
             res.banner_inuse = steps[0][1] if steps else None
             res.steps = steps[1:]
             res.tail = tail
@@ -554,6 +559,13 @@ def corpus():
     for k in range(14): ls += ["%d C 1.2.3.9 1 10.0.0.1 6667" % (20 + k), "%d D" % (20 + k)]
     ls += ["5 C 1.2.3.5 2 10.0.0.1 6667", "5 P :+x c d", "-1 X a.svc 5_1 :OK stale", "-1 X a.svc 5_1 :NO stale", "-1 X a.svc 5_100 :OK longer", "5 H", "-1 X a.svc 5_10 :OK fresh"]
     c.append(Scn(True, False, [('a.svc', 'login')], [], 0, L(*ls), "stale serial that is a prefix of the live one"))
+    # more services than the per-client masks have bits (D27): 36 entries, the first 32 (in name order) get a slot, the rest are refused
+    # with an error; a NO from slot 0 after an OK "from" an entry that has no slot must still reject
+    many = [('s%02d.x' % k, 'login') for k in range(10, 46)]
+    c.append(Scn(True, False, many, [], 0, L("5 C 1.2.3.4 1 10.0.0.1 6667", "5 P :+x a b", "-1 X s42.x 5_1 :OK acct:1", "-1 X s45.x 5_1 :OK", "-1 X s10.x 5_1 :NO go away", "5 H", "5 D"), "thirty-six services: a slot for thirty-two"))
+    c.append(Scn(True, False, many, [], 0, L("5 C 1.2.3.4 1 10.0.0.1 6667", "5 P :+x a b", "-1 X s41.x 5_1 :OK acct:1", "-1 X s42.x 5_1 :NO not configured", "5 H") + L(*["-1 X s%02d.x 5_1 :OK" % k for k in range(10, 41)]) + L("5 D"), "thirty-six services: all thirty-two answer"))
+    c.append(Scn(True, False, many, [], 0, L("5 C 1.2.3.4 1 10.0.0.1 6667", "5 P :+x a b", "-1 X s42.x 5_1 :OK", "-1 X s10.x 5_1 :NO refused by the first service") + L(*["-1 X s%02d.x 5_1 :OK" % k for k in range(11, 46)]) + L("5 H", "5 D"), "thirty-six services: refusal after an answer from the entry that would share its bit"))
+    c.append(Scn(True, False, [('s10.x', 'login')], [], 0, L("5 C 1.2.3.4 1 10.0.0.1 6667") + [('R', many, [], 0)] + L("5 P :+x a b", "-1 X s45.x 5_1 :OK", "-1 X s10.x 5_1 :NO no", "6 C 1.2.3.5 1 10.0.0.1 6667", "6 H"), "reload from one service to thirty-six"))
     return c
 
 def mode_family():
